@@ -12,6 +12,7 @@ is changed.  What this module adds:
           => snapshot unchanged                                            ("deep-refusal")
       fails by itself with any other exception (no user callback raised) => snapshot unchanged   ("failing-op")
       Tree.copy() / Node.copy() => every tree that existed before is unchanged   ("copy-purity")
+      add(node) / add(tree) / copy_to from another tree => the source tree is unchanged   ("copy-purity")
   plus the C01-C03 oracles of mut.py after every step (also after an escaped callback exception).
 * generators: ``invalid_groups`` (every operation with every documented-invalid argument on every forest
   <= N nodes, two trees so that nodes / trees of another tree can be named), ``fault_descs`` (for every
@@ -148,6 +149,13 @@ def replay13(hist, keep_world=False) -> mut.Run:
             run.fails.append((si, "failing-op", f"{op[0]} failed with {H.ERR_NAMES.get(res[1], res[1])} (no callback fault) and {snap_diff(snap0, snap1)}"))
         if res[0] == 0 and op[0] in ("treecopy", "nodecopy") and snap1[:len(snap0)] != snap0:
             run.fails.append((si, "copy-purity", f"{op[0]} changed its source: {snap_diff(snap0, snap1[:len(snap0)])}"))
+        if op[0] in ("addnode", "addtree", "copyto"):
+            # the source of a copy: when it is another tree than the target, that tree is unchanged
+            sti, ti = (op[3], op[1]) if op[0] in ("addnode", "addtree") else (op[1], op[3])
+            if op[0] == "addtree":
+                sti = op[3]
+            if sti != ti and sti < len(snap0) and sti < len(snap1) and snap0[sti] != snap1[sti]:
+                run.fails.append((si, "copy-purity", f"{op[0]} changed its source tree {sti}: {snap_diff(snap0[sti:sti + 1], snap1[sti:sti + 1])}"))
         before = after
     if keep_world:
         run.world = w
